@@ -115,7 +115,9 @@ def check_literal_rejection(kind, text):
     a = lib.parse(text)
     mine = type(a)
     others = [node_class(n) for n in ALL_LITERAL_NODES if node_class(n) is not mine]
-    for allowed in (others[0], tuple(others[:3]), tuple(others)):
+    import itertools
+    alloweds = list(others) + [(o,) for o in others] + list(itertools.combinations(others, 2)) + [tuple(others)]
+    for allowed in alloweds:
         try:
             ty.typecheck(a, allowed, "arg")
         except exceptions.ArgumentTypeException:
